@@ -1,4 +1,6 @@
-CONSTANT NProg = 40
+CONSTANTS
+  NHammer = 6
+  NProg = 40
 INIT Init
 NEXT Next
 INVARIANTS Emit
